@@ -883,6 +883,7 @@ func TestCheck(t *testing.T) {
 		"zero-length fixed arrays and zero-size elements inside arrays; bytes<M>/address values of another length than declared; extra keys in object-form tuples; fixed-point literals with more than N fractional digits or an exponent")
 	rec.Assume("integral numbers spelled with a fraction or exponent (\"1.0\", \"12e3\") and float64 values of magnitude >= 2^63 may be rejected, but if accepted must be encoded exactly")
 	kEnc := evid.NewKind(rec, "encode", judgeEncode)
+	cpool := evid.NewPool(rec, "concurrent", judgeEncode, 64)
 	rec.Corpus(t)
 
 	noNegFixed := kEnc.Probe(probeKeyNegFixed,
@@ -931,8 +932,10 @@ func TestCheck(t *testing.T) {
 		if c.Fn != "" {
 			cl = append(cl, "api:EncodeCallData")
 		}
+		cpool.Offer(c)
 		kEnc.Check(rt, c, nt, cl...)
 	})
+	cpool.Run(t, 8, 3, 16)
 }
 
 // sweep enumerates, for each of the 64 integer types, the values {min-1, min, -1, 0, 1, max,
@@ -1010,5 +1013,6 @@ func sweep(t *testing.T, rec *evid.Recorder, k *evid.Kind[EncodeCase]) {
 func TestReplay(t *testing.T) {
 	rec := evid.Start("C02", rule)
 	evid.NewKind(rec, "encode", judgeEncode)
+	evid.NewPool(rec, "concurrent", judgeEncode, 0)
 	rec.Replay(t)
 }
